@@ -112,6 +112,31 @@ where
     }
 }
 
+impl<I> VRing<I> for yui::poly::Poly<'H', I>
+where
+    I: VInt,
+    for<'x> &'x I: VIntOps<I>,
+{
+    fn zero_comps(&self) -> Vec<I> {
+        self.iter().map(|(_, c)| c.clone()).collect()
+    }
+    const ARITY: usize = 2;
+    /// a + b H
+    fn build(xs: &[I]) -> Self {
+        [(Self::mono(0), xs[0].clone()), (Self::mono(1), xs[1].clone())].into_iter().collect()
+    }
+    fn ring_name() -> &'static str {
+        "Z[H]"
+    }
+    fn associate(&self, o: &Self) -> VF<I> {
+        VF::Or(vec![is_zero_f::<I, Self>(&(self - o)), is_zero_f::<I, Self>(&(self + o))])
+    }
+    fn unit_formula(&self) -> VF<I> {
+        // units of Z[H] are +-1
+        VF::Or(vec![is_zero_f::<I, Self>(&(self - &Self::one())), is_zero_f::<I, Self>(&(self + &Self::one()))])
+    }
+}
+
 pub fn is_zero_f<I, R>(x: &R) -> VF<I>
 where
     I: VInt,
